@@ -107,6 +107,9 @@ func sliceAccumulator(v ssa.Value, loops []*core.Loop) (*core.Loop, *ssa.Call, [
 			}
 			continue
 		}
+		if e == ssa.Value(phi) {
+			continue // iteration that appends nothing
+		}
 		c, ok := e.(*ssa.Call)
 		if !ok || !core.IsBuiltin(c, "append") || c.Call.Args[0] != ssa.Value(phi) {
 			return nil, nil, nil, false
